@@ -120,6 +120,21 @@ class ServiceSystem:
     self._last = None
     self.reset()
 
+  def hard_reset(self):
+    """Brand-new server and datastore objects (nothing that a server object may keep in memory survives)."""
+    for b in self.bs:
+      b.close()
+    self.bs = []
+    for k in self.kinds:
+      path = None
+      if k == 'sqlfile':
+        if self._tmp is None:
+          self._tmp = tempfile.mkdtemp(prefix='sqlfile-', dir=svc.scratch())
+        path = os.path.join(self._tmp, 'v.db')
+      self.bs.append(svc.Backend(k, path=path))
+    self._empty = [b.snapshot() for b in self.bs]
+    self.reset()
+
   def reset(self):
     for b, s in zip(self.bs, self._empty):
       b.restore(s)
@@ -183,6 +198,9 @@ class ServiceSystem:
         stuck = True
         vios.append(self.v('call-does-not-return', kind, pres[0], '%s did not return within %.0f s' % (kind, svc.CALL_TIMEOUT_S), b.kind))
         continue
+      if b.pending_transaction():
+        vios.append(self.v('uncommitted-transaction-after-call', kind, pres[0], '%s returned (%s) and left its SQL transaction open: what it wrote is acknowledged but not durable, and the next rollback undoes it' % (kind, cls), b.kind))
+        b.settle()
       held = svc.held_locks(b.servicer)
       if held:
         stuck = True
@@ -192,10 +210,10 @@ class ServiceSystem:
     self._last = outs[0][0]
     if stuck:
       return vios
-    if kind in ('Tick', 'Restart'):
+    if kind in ('Tick', 'Restart', 'Switch'):
       for b, pre, post in zip(self.bs, pres, posts):
-        if kind == 'Restart' and pre != post:
-          vios.append(self.v('restart-preserves-state', kind, pre, 'stored data changed across a server restart', b.kind))
+        if kind != 'Tick' and pre != post:
+          vios.append(self.v('restart-preserves-state', kind, pre, 'stored data changed across a server restart / a switch to another server on the same data', b.kind))
       return vios
     env = svc.env_of(a)
     scripted_failure = bool(env.get('fail_suggest') or env.get('fail_stop') or env.get('fail_factory'))
